@@ -7,10 +7,10 @@ from present import Presenter
 
 MODEL_TARGETS = ["model/Ser.vo", "spec/Denote.vo"]
 COQ_TARGETS = ["props/C02.vo"]
-THEOREMS = [("C02", ["C02_canonical", "C02_to_datum", "C02_sound", "C02_sound_node", "C02_nopanic", "C02_unnamed_never_union", "C02_named_selects_branch", "C02_decimal_string",
+THEOREMS = [("C02", ["C02_canonical", "C02_to_datum", "C02_sound", "C02_sound_node", "C02_denotes", "C02_denotes_present", "C02_nopanic", "C02_unnamed_never_union", "C02_named_selects_branch", "C02_decimal_string",
                      "C02_int_range", "C02_long_range", "C02_enum_index", "C02_enum_symbol", "C02_fixed_length", "C02_duration_length",
                      "C02_string_utf8", "C02_decimal_fixed_fit"])]
-PROOF_FILES = ["proofs/SerProofs.v", "proofs/SerLeafProofs.v", "props/C02.v", "proofs/SerSoundProofs.v", "proofs/SerSoundDecimal.v", "proofs/SerSoundBytes.v", "proofs/RecordProofs.v", "proofs/SerContractProofs.v", "proofs/SerSafetyProofs.v"]
+PROOF_FILES = ["proofs/SerProofs.v", "proofs/SerLeafProofs.v", "props/C02.v", "proofs/SerSoundProofs.v", "proofs/SerSoundDecimal.v", "proofs/SerSoundBytes.v", "proofs/RecordProofs.v", "proofs/SerContractProofs.v", "proofs/SerSafetyProofs.v", "proofs/DenotesDefs.v", "proofs/SerDenotesProofs.v"]
 TRUSTED_BASE = [
     "Coq 8.16.1 kernel; no axioms (Print Assumptions: closed)",
     "translators/gen_union.py: the union lookup priorities, registered names and the closures' code shape are regenerated / pinned from union_variants_per_type_lookup.rs on every run; theorems about the table are re-proved against it",
@@ -19,7 +19,7 @@ TRUSTED_BASE = [
 ]
 ASSUMPTIONS = [
     "proved: exactness for the canonical presentation of every conforming value; SOUNDNESS for every accepted presentation (C02_sound: all 22 Serializer entry points x all node kinds: Ok implies a valid encoding of a conforming value); table facts; leaf rejections. Side conditions: the presentation is constructible from safe Rust (UTF-8 str, scalar char, serde's key/value alternation) and the schema keeps fixed decimals within the documented 16 bytes (a 17-byte fixed decimal presented as a string is written although the crate's decoder stops at 16: C02_sound_statement_refuted)",
-    "that the value encoded is the one the presentation denotes (not just some conforming value) is proved for the canonical presentation and decided for the others by the decode-back oracle on the crate",
+    "functional correctness is proved (C02_denotes): the bytes encode A VALUE THE PRESENTATION DENOTES, with `denotes` (proofs/DenotesDefs.v) written from the serde data model and the Avro specification; under a union a type-directed presentation may denote values in several branches (the relation is many-valued there: which one is the crate's suitability rule; ties are rejected: C02_unnamed / ambiguous-union oracle); the two documented lossy readings (decimal strings rounded half away from zero, f64 narrowed to float) are separate constructors",
     "rust_decimal: FromStr on the canonical grammar, rescale (half away from zero on the first dropped digit), 96-bit mantissa; f64 -> decimal and f64 -> f32 narrowing are outside the model (counted as unmodelled)",
     "decimal strings with more fractional digits than the schema scale are rounded by rust_decimal::rescale (documented by the crate as intended); such presentations are not generated as 'value-preserving'",
 ]
